@@ -274,6 +274,26 @@ func signCase[P any](a alg, class string, payload P, aad []byte, detached bool, 
 			}
 		}
 	}
+	// a caller that hands Verify the payload it is about to rely on although the object still carries one: the
+	// payload given is the one that must have been signed (equal: verifies; differing in any bit: does not)
+	if pb, isBytes := any(payload).([]byte); isBytes && !detached && len(pb) <= 64 {
+		same := any(bytes.Clone(pb)).(P)
+		if pb == nil {
+			same = any([]byte{}).(P)
+		}
+		ok, verr, p := libVerify[P](wire, pub, &same, aad)
+		judge(a, class, "supplied-payload-equal", wire, ok, verr, p, refVerify(wire, pub, nil, aad), false)
+		for i := 0; i < len(pb)*8; i++ {
+			alt := any(flipBit(pb, i)).(P)
+			try(fmt.Sprintf("supplied-paybit%d", i), wire, &alt, nil, aad, pub)
+		}
+		longer := any(append(bytes.Clone(pb), 0)).(P)
+		try("supplied-payload-longer", wire, &longer, nil, aad, pub)
+		if len(pb) > 0 {
+			shorter := any(bytes.Clone(pb[:len(pb)-1])).(P)
+			try("supplied-payload-shorter", wire, &shorter, nil, aad, pub)
+		}
+	}
 	// every bit of the external data, and presence/absence
 	for i := 0; i < len(aad)*8; i++ {
 		try(fmt.Sprintf("aadbit%d", i), wire, dp, refDet, flipBit(aad, i), pub)
